@@ -674,13 +674,31 @@ impl ElementRaw {
             if src_parent.downgrade() == self_weak {
                 Ok(move_element.clone())
             } else {
+                Self::check_short_name_move(move_element_name, &src_parent)?;
                 // move the element within the same model
                 self.move_element_local(self_weak, move_element, end_pos, model, version)
             }
         } else {
+            if let Some(src_parent) = move_element.parent()? {
+                Self::check_short_name_move(move_element_name, &src_parent)?;
+            }
             // move the element between different models
             self.move_element_full(self_weak, move_element, end_pos, model, model_src, version)
         }
+    }
+
+    /// the SHORT-NAME of an identifiable element can't be moved away, because that would leave the data in an invalid state
+    fn check_short_name_move(move_element_name: ElementName, src_parent: &Element) -> Result<(), AutosarDataError> {
+        if move_element_name == ElementName::ShortName {
+            let src_parent_locked = src_parent
+                .0
+                .try_read_for(Duration::from_millis(10))
+                .ok_or(AutosarDataError::ParentElementLocked)?;
+            if src_parent_locked.elemtype.is_named() {
+                return Err(AutosarDataError::ShortNameRemovalForbidden);
+            }
+        }
+        Ok(())
     }
 
     /// take an `element` from it's current location and place it at the given position in this element as a sub element
@@ -709,13 +727,21 @@ impl ElementRaw {
                     element: move_element_name,
                 })?;
                 if src_parent.downgrade() == self_weak {
+                    if move_element_name == ElementName::ShortName && self.elemtype.is_named() && position != 0 {
+                        // the SHORT-NAME always remains the first sub element
+                        return Err(AutosarDataError::ShortNameRemovalForbidden);
+                    }
                     // move new_element to a different position within the current element
                     self.move_element_position(move_element, position)
                 } else {
+                    Self::check_short_name_move(move_element_name, &src_parent)?;
                     // move the element within the same model
                     self.move_element_local(self_weak, move_element, position, model, version)
                 }
             } else {
+                if let Some(src_parent) = move_element.parent()? {
+                    Self::check_short_name_move(move_element_name, &src_parent)?;
+                }
                 // move the element between different models
                 self.move_element_full(self_weak, move_element, position, model, model_src, version)
             }
